@@ -3,7 +3,7 @@
 # Applies the patch to a scratch worktree of /repo (never to /repo itself), runs the baseline tests, the demo and the
 # quick checks of the given properties against it through ICV_REPO, then removes the worktree.
 set -u
-D=$1; shift
+D=$(realpath $1); shift
 WT=$(mktemp -d /tmp/mutwt.XXXXXX); rmdir $WT
 git -C /repo worktree add -q --detach $WT HEAD || exit 2
 if ! git -C $WT apply $D/patch.diff 2>/tmp/apply.err; then
